@@ -14,16 +14,17 @@ def DeadSub (s s' : St) : Prop := ∀ x, x ∈ s'.dead → x ∈ s.dead
 theorem DeadSub.refl (s : St) : DeadSub s s := fun _ h => h
 theorem DeadSub.trans {a b c : St} (h1 : DeadSub a b) (h2 : DeadSub b c) : DeadSub a c :=
   fun x hx => h1 x (h2 x hx)
-theorem DeadSub.of_tables {s s' : St} (h : SameTables s s') : DeadSub s s' := by
-  intro x hx; rw [h.dead] at hx; exact hx
+theorem DeadSub.of_tables {U : Universe} [hp : U.Passive] {s s' : St} (h : SameTables U s s') :
+    DeadSub s s' := by
+  intro x hx; rw [h.dead hp] at hx; exact hx
 
-theorem removeComponent_deadSub (U : Universe) (s : St) (e : Ent) (t : Ty) :
+theorem removeComponent_deadSub (U : Universe) [U.Passive] (s : St) (e : Ent) (t : Ty) :
     DeadSub s (removeComponent U s e t).1 := by
   rcases removeComponent_spec U s e t with ⟨_, heq⟩ | ⟨st, c, _, _, _, hsame⟩
   · rw [heq]; exact .refl s
   · exact DeadSub.trans (fun x hx => dead_detach s e st x hx) (DeadSub.of_tables hsame)
 
-theorem removeTypes_deadSub (U : Universe) (s : St) (e : Ent) (ts : List Ty) :
+theorem removeTypes_deadSub (U : Universe) [U.Passive] (s : St) (e : Ent) (ts : List Ty) :
     DeadSub s (removeTypes U s e ts).1 := by
   induction ts generalizing s with
   | nil => exact .refl s
@@ -38,7 +39,7 @@ theorem removeTypes_deadSub (U : Universe) (s : St) (e : Ent) (ts : List Ty) :
       · exact h1.trans (ih s')
       all_goals exact h1
 
-theorem sweep_deadSub (U : Universe) (s : St) (es : List Ent) : DeadSub s (sweep U s es).1 := by
+theorem sweep_deadSub (U : Universe) [U.Passive] (s : St) (es : List Ent) : DeadSub s (sweep U s es).1 := by
   induction es generalizing s with
   | nil => exact .refl s
   | cons e es ih =>
@@ -55,7 +56,7 @@ theorem sweep_deadSub (U : Universe) (s : St) (es : List Ent) : DeadSub s (sweep
         all_goals exact h1
 
 /-- whatever happens during the sweep, nothing is awaiting deletion afterwards -/
-theorem clearDead_dead (U : Universe) (s : St) (h : (clearDead U s).2 ≠ .badHint) :
+theorem clearDead_dead (U : Universe) [U.Passive] (s : St) (h : (clearDead U s).2 ≠ .badHint) :
     (clearDead U s).1.dead = [] := by
   unfold clearDead at h ⊢
   split
@@ -69,7 +70,7 @@ theorem clearDead_dead (U : Universe) (s : St) (h : (clearDead U s).2 ≠ .badHi
       have := this x (by rw [hd]; simp)
       simp at this
 
-theorem process_dead (U : Universe) (s : St) (dt : String) (h : (process U s dt).2 ≠ .badHint) :
+theorem process_dead (U : Universe) [U.Passive] (s : St) (dt : String) (h : (process U s dt).2 ≠ .badHint) :
     (process U s dt).1.dead = [] := by
   unfold process at h ⊢
   cases hx : clearDead U s with
@@ -77,7 +78,7 @@ theorem process_dead (U : Universe) (s : St) (dt : String) (h : (process U s dt)
     have hd := clearDead_dead U s
     rw [hx] at hd h
     cases o <;> simp only at h ⊢
-    · rw [(runProcs_tables U s' dt _).dead]; exact hd (by simp)
+    · rw [(runProcs_tables U s' dt _).dead inferInstance]; exact hd (by simp)
     · exact hd (by simp)
     · exact hd (by simp)
     · exact absurd rfl h
@@ -102,16 +103,17 @@ theorem deadOk_detach {s : St} (h : DeadOk s) (e : Ent) (st : Ty) : DeadOk (deta
     · rfl
     · exact h x hx0
 
-theorem deadOk_of_tables {s s' : St} (h : DeadOk s) (t : SameTables s s') : DeadOk s' := by
-  intro x hx; rw [t.dead] at hx; rw [t.ents]; exact h x hx
+theorem deadOk_of_tables {U : Universe} [hp : U.Passive] {s s' : St} (h : DeadOk s) (t : SameTables U s s') :
+    DeadOk s' := by
+  intro x hx; rw [t.dead hp] at hx; rw [t.ents]; exact h x hx
 
-theorem deadOk_removeComponent {U : Universe} {s : St} (h : DeadOk s) (e : Ent) (t : Ty) :
+theorem deadOk_removeComponent {U : Universe} [U.Passive] {s : St} (h : DeadOk s) (e : Ent) (t : Ty) :
     DeadOk (removeComponent U s e t).1 := by
   rcases removeComponent_spec U s e t with ⟨_, heq⟩ | ⟨st, c, _, _, _, hsame⟩
   · rw [heq]; exact h
   · exact deadOk_of_tables (deadOk_detach h e st) hsame
 
-theorem deadOk_removeTypes {U : Universe} {s : St} (h : DeadOk s) (e : Ent) (ts : List Ty) :
+theorem deadOk_removeTypes {U : Universe} [U.Passive] {s : St} (h : DeadOk s) (e : Ent) (ts : List Ty) :
     DeadOk (removeTypes U s e ts).1 := by
   induction ts generalizing s with
   | nil => exact h
@@ -126,7 +128,7 @@ theorem deadOk_removeTypes {U : Universe} {s : St} (h : DeadOk s) (e : Ent) (ts 
       · exact ih h1
       all_goals exact h1
 
-theorem deadOk_attachTables {U : Universe} {s : St} (h : DeadOk s) (e : Ent) (c : Obj) :
+theorem deadOk_attachTables {U : Universe} [U.Passive] {s : St} (h : DeadOk s) (e : Ent) (c : Obj) :
     DeadOk (attachTables U s e c) := by
   intro x hx
   have : (attachTables U s e c).ents = Dict.set s.ents e (Dict.set (row s e) (tyOf U c) c) := rfl
@@ -135,7 +137,7 @@ theorem deadOk_attachTables {U : Universe} {s : St} (h : DeadOk s) (e : Ent) (c 
   · rfl
   · exact h x hx
 
-theorem deadOk_foldAttach {U : Universe} (e : Ent) (cs : List Obj) {s : St} (h : DeadOk s) :
+theorem deadOk_foldAttach {U : Universe} [U.Passive] (e : Ent) (cs : List Obj) {s : St} (h : DeadOk s) :
     DeadOk (cs.foldl (fun s c => attachTables U s e c) s) := by
   induction cs generalizing s with
   | nil => exact h
@@ -146,7 +148,7 @@ end Desper.World
 namespace Desper.World
 open Desper
 
-theorem deadOk_createEntity {U : Universe} {s : St} (h : DeadOk s) (id? : Option Ent)
+theorem deadOk_createEntity {U : Universe} [U.Passive] {s : St} (h : DeadOk s) (id? : Option Ent)
     (cs : List Obj) : DeadOk (createEntity U s id? cs).1 := by
   unfold createEntity
   have key : ∀ (s0 : St) (e : Ent), DeadOk s0 →
@@ -170,7 +172,7 @@ theorem deadOk_createEntity {U : Universe} {s : St} (h : DeadOk s) (id? : Option
   | some e => exact key s e h
   | none => simp only; exact key _ _ (fun x hx => h x hx)
 
-theorem deadOk_addComponent {U : Universe} {s : St} (h : DeadOk s) (e : Ent) (c : Obj) :
+theorem deadOk_addComponent {U : Universe} [U.Passive] {s : St} (h : DeadOk s) (e : Ent) (c : Obj) :
     DeadOk (addComponent U s e c).1 := by
   unfold addComponent
   simp only
@@ -193,7 +195,7 @@ def opOk (s : St) : Op → Prop
   | .delete e false => (Dict.get? s.ents e).isSome
   | _ => True
 
-theorem deadOk_deleteEntity {U : Universe} {s : St} (h : DeadOk s) (e : Ent) (imm : Bool)
+theorem deadOk_deleteEntity {U : Universe} [U.Passive] {s : St} (h : DeadOk s) (e : Ent) (imm : Bool)
     (hok : opOk s (.delete e imm)) : DeadOk (deleteEntity U s e imm).1 := by
   unfold deleteEntity
   cases imm with
@@ -213,7 +215,7 @@ theorem deadOk_deleteEntity {U : Universe} {s : St} (h : DeadOk s) (e : Ent) (im
 theorem deadOk_of_dead_nil {s : St} (h : s.dead = []) : DeadOk s := by
   intro x hx; rw [h] at hx; simp at hx
 
-theorem deadOk_deleteAll {U : Universe} {s : St} (h : DeadOk s) (es : List Ent) :
+theorem deadOk_deleteAll {U : Universe} [U.Passive] {s : St} (h : DeadOk s) (es : List Ent) :
     DeadOk (deleteAll U s es).1 := by
   induction es generalizing s with
   | nil => exact h
@@ -227,7 +229,7 @@ theorem deadOk_deleteAll {U : Universe} {s : St} (h : DeadOk s) (es : List Ent) 
       · exact ih h1
       all_goals exact h1
 
-theorem deadOk_removeProcs {U : Universe} {s : St} (h : DeadOk s) (ps : List Obj) :
+theorem deadOk_removeProcs {U : Universe} [U.Passive] {s : St} (h : DeadOk s) (ps : List Obj) :
     DeadOk (removeProcs U s ps).1 := by
   induction ps generalizing s with
   | nil => exact h
@@ -235,7 +237,7 @@ theorem deadOk_removeProcs {U : Universe} {s : St} (h : DeadOk s) (ps : List Obj
     simp only [removeProcs]
     have h1 : DeadOk (removeProcessor U s (tyOf U p)).1 := by
       intro x hx
-      rw [(removeProcessor_ents U s _).2.2.1] at hx
+      rw [(removeProcessor_ents U s _).2.2.1 inferInstance] at hx
       rw [(removeProcessor_ents U s _).1]; exact h x hx
     cases hx : removeProcessor U s (tyOf U p) with
     | mk s' r =>
@@ -245,7 +247,7 @@ theorem deadOk_removeProcs {U : Universe} {s : St} (h : DeadOk s) (ps : List Obj
       · exact ih h1
       all_goals exact h1
 
-theorem deadOk_clear {U : Universe} {s : St} (h : DeadOk s) : DeadOk (clear U s).1 := by
+theorem deadOk_clear {U : Universe} [U.Passive] {s : St} (h : DeadOk s) : DeadOk (clear U s).1 := by
   unfold clear
   have h1 := deadOk_deleteAll (U := U) h (Dict.keys s.ents)
   cases hx : deleteAll U s (Dict.keys s.ents) with
@@ -262,7 +264,7 @@ theorem deadOk_clear {U : Universe} {s : St} (h : DeadOk s) : DeadOk (clear U s)
         all_goals exact h3
     all_goals exact h1
 
-theorem deadOk_step {U : Universe} {s : St} (h : DeadOk s) (op : Op) (hok : opOk s op)
+theorem deadOk_step {U : Universe} [U.Passive] {s : St} (h : DeadOk s) (op : Op) (hok : opOk s op)
     (hb : (step U s op).2.1 ≠ .badHint) : DeadOk (step U s op).1 := by
   cases op with
   | create id? cs => exact deadOk_createEntity h id? cs
@@ -275,13 +277,13 @@ theorem deadOk_step {U : Universe} {s : St} (h : DeadOk s) (op : Op) (hok : opOk
     intro x hx
     show (Dict.get? (addProcessor U s p prio?).1.ents x).isSome
     have hx' : x ∈ (addProcessor U s p prio?).1.dead := hx
-    rw [(addProcessor_ents U s p prio?).2.2.1] at hx'
+    rw [(addProcessor_ents U s p prio?).2.2.1 inferInstance] at hx'
     rw [(addProcessor_ents U s p prio?).1]; exact h x hx'
   | rmProc t =>
     intro x hx
     show (Dict.get? (removeProcessor U s t).1.ents x).isSome
     have hx' : x ∈ (removeProcessor U s t).1.dead := hx
-    rw [(removeProcessor_ents U s t).2.2.1] at hx'
+    rw [(removeProcessor_ents U s t).2.2.1 inferInstance] at hx'
     rw [(removeProcessor_ents U s t).1]; exact h x hx'
   | enable b => exact deadOk_of_tables h (setEnabled_tables U s b)
   | dispatch ev args => exact deadOk_of_tables h (dispatchPlain_tables U s ev args)
@@ -292,7 +294,7 @@ def GoodHist (U : Universe) : St → List Op → Prop
   | _, [] => True
   | s, op :: ops => opOk s op ∧ (step U s op).2.1 ≠ .badHint ∧ GoodHist U (step U s op).1 ops
 
-theorem deadOk_run {U : Universe} {s : St} (h : DeadOk s) (ops : List Op) (hg : GoodHist U s ops) :
+theorem deadOk_run {U : Universe} [U.Passive] {s : St} (h : DeadOk s) (ops : List Op) (hg : GoodHist U s ops) :
     DeadOk (run U s ops) := by
   induction ops generalizing s with
   | nil => exact h
@@ -305,7 +307,7 @@ end Desper.World
 namespace Desper.World
 open Desper
 
-theorem lifecycle_ok {U : Universe} (hn : NoRaise U) (s : St) (ev : String) (o : Obj) (m : Mapping)
+theorem lifecycle_ok {U : Universe} [U.Passive] (hn : NoRaise U) (s : St) (ev : String) (o : Obj) (m : Mapping)
     (ent : Option Ent) : (lifecycle U s ev o m ent).2 = .ok := by
   unfold lifecycle
   split
@@ -315,9 +317,9 @@ theorem lifecycle_ok {U : Universe} (hn : NoRaise U) (s : St) (ev : String) (o :
     · split <;> rfl
 
 /-- removing by an exact type that is present: exactly that component goes, nothing fails -/
-theorem removeComponent_exact {U : Universe} (hn : NoRaise U) (s : St) (e : Ent) (t : Ty) (c : Obj)
+theorem removeComponent_exact {U : Universe} [U.Passive] (hn : NoRaise U) (s : St) (e : Ent) (t : Ty) (c : Obj)
     (hc : Dict.get? (row s e) t = some c) :
-    (removeComponent U s e t).2.1 = .ok ∧ SameTables (detach s e t) (removeComponent U s e t).1 := by
+    (removeComponent U s e t).2.1 = .ok ∧ SameTables U (detach s e t) (removeComponent U s e t).1 := by
   obtain ⟨rest, hr⟩ := visit_head U t
   have hf : (visit U t).find? (fun st => (Dict.get? (row s e) st).isSome) = some t := by
     rw [hr, List.find?_cons]; simp [hc]
@@ -343,7 +345,7 @@ theorem detach_ents_other (s : St) (e e' : Ent) (st : Ty) (h : e ≠ e') :
   · rw [Dict.get?_set]; simp [h]
 
 /-- removing every listed (present, distinct) type of an entity -/
-theorem removeTypes_all {U : Universe} (hn : NoRaise U) (e : Ent) (ts : List Ty) :
+theorem removeTypes_all {U : Universe} [U.Passive] (hn : NoRaise U) (e : Ent) (ts : List Ty) :
     ∀ s : St, ts.Nodup → (∀ t ∈ ts, (Dict.get? (row s e) t).isSome) →
       (removeTypes U s e ts).2 = .ok ∧
       (∀ x, Dict.get? (row (removeTypes U s e ts).1 e) x =
@@ -387,7 +389,7 @@ theorem removeTypes_all {U : Universe} (hn : NoRaise U) (e : Ent) (ts : List Ty)
 
 /-- the sweep at the start of `process` completes when every listed entity still owns
 components (and no callback raises), and afterwards none of them owns anything -/
-theorem sweep_total {U : Universe} (hn : NoRaise U) (es : List Ent) :
+theorem sweep_total {U : Universe} [U.Passive] (hn : NoRaise U) (es : List Ent) :
     ∀ s : St, TabInv U s → es.Nodup → (∀ e ∈ es, (Dict.get? s.ents e).isSome) →
       (sweep U s es).2 = .ok ∧ (∀ e ∈ es, row (sweep U s es).1 e = []) ∧
       (∀ e', e' ∉ es → Dict.get? (sweep U s es).1.ents e' = Dict.get? s.ents e') := by
@@ -451,7 +453,7 @@ theorem nodupB_nodup (l : List Nat) (h : nodupB l = true) : l.Nodup := by
 
 /-- `process()` completes: deletion bookkeeping never fails when every entity awaiting deletion
 still owns components, and it leaves none of them behind -/
-theorem clearDead_total {U : Universe} (hn : NoRaise U) (s : St) (hinv : TabInv U s) (hd : DeadOk s)
+theorem clearDead_total {U : Universe} [U.Passive] (hn : NoRaise U) (s : St) (hinv : TabInv U s) (hd : DeadOk s)
     (hb : (clearDead U s).2 ≠ .badHint) :
     (clearDead U s).2 = .ok ∧ ∀ e ∈ s.dead, row (clearDead U s).1 e = [] := by
   unfold clearDead at hb ⊢
